@@ -167,3 +167,62 @@ def len_committed_per_item(ctx, fx, files, rule="R-PANICSAFE.len", only=None):
                                   "never dropped" % (fid.rsplit("::", 1)[-1], wr[0]["ln"]), fn.file, wr[0]["ln"])
     ctx.instance(rule + ".loops", n)
     return n
+
+
+# ------------------------------------------------------------------ R-RAWWORDS
+def _masks_tail(fn):
+    """does the function clear bits of a stored word: `(*elem) = (*elem) & mask` / `elem &= mask`"""
+    for loc, st in fn.iter_locs():
+        if st[0] == "a" and "*" in st[1][1:] and st[2][0] == "bin" and st[2][1] == "BitAnd":
+            return True
+    return False
+
+
+def raw_words_masked(ctx, fx, files, rule="R-RAWWORDS", only=None):
+    """A public constructor that receives raw 64-bit words by value together with a bit count does not hand the word vector on
+    (to a callee or into the value it builds) unless it, or the receiving callee, clears bits of a stored word: the rank / select
+    builders popcount whole words and rely on "bits beyond the length are zero". Reading the words one by one is always fine."""
+    n = 0
+    for f in files:
+        for fid in fx.fn_ids(f):
+            if "::tests::" in fid or "{closure" in fid or (only and not only(fid)):
+                continue
+            rec = fx.raw(fid)
+            if rec.get("vis") != "pub":
+                continue
+            fn = Fn(rec)
+            words = [i for i in range(1, fn.nargs + 1) if fn.ty(i).replace(" ", "").startswith("std::vec::Vec<u64")]
+            if not words or not any(fn.ty(i) == "usize" for i in range(1, fn.nargs + 1)):
+                continue
+            n += 1
+            ctx.analysed_fns.add(fid)
+            own = set(words)
+            # by-value rebinding (`mut words`) keeps ownership
+            grew = True
+            while grew:
+                grew = False
+                for loc, st in fn.iter_locs():
+                    if st[0] == "a" and len(st[1]) == 1 and st[2][0] == "use" and st[2][1][0] == "m" and \
+                            st[2][1][1] == [st[2][1][1][0]] and st[2][1][1][0] in own and st[1][0] not in own:
+                        own.add(st[1][0])
+                        grew = True
+            handed = []
+            for b, c in fn.calls():
+                if any(a[0] == "m" and a[1] == [a[1][0]] and a[1][0] in own for a in c["a"]):
+                    if c["f"].endswith("::drop") or "IntoIterator" in c["f"] or c["f"].endswith("::into_iter"):
+                        continue
+                    ok = bool(c.get("loc")) and fx.has(c["f"]) and _masks_tail(Fn(fx.raw(c["f"])))
+                    handed.append((c["f"], c["ln"], ok))
+            for loc, st in fn.iter_locs():
+                if st[0] == "a" and st[2][0] == "agg" and any(o[0] == "m" and o[1] == [o[1][0]] and o[1][0] in own for o in st[2][2]):
+                    handed.append(("the constructed value", st[3], False))
+            bad = [h for h in handed if not h[2]] if not _masks_tail(fn) else []
+            ctx.obligation(rule, fid, "raw words handed on only behind a tail mask", not bad,
+                           sample={"fn": fid, "handed_to": [h[0].rsplit("::", 1)[-1] for h in handed], "masks_itself": _masks_tail(fn)})
+            if bad:
+                ctx.violation(rule, fid, "raw words handed on unmasked",
+                              "%s moves the caller's word vector into %s (line %s) and neither function clears bits of a stored word: set "
+                              "bits above the stated length are counted by the popcount-based rank / select index" %
+                              (fid.rsplit("::", 1)[-1], bad[0][0].rsplit("::", 1)[-1], bad[0][1]), fn.file, bad[0][1])
+    ctx.instance(rule + ".constructors", n)
+    return n
